@@ -354,6 +354,33 @@ package httpserver
 //@   loop 1 invariant forall(k, 0, #i, under(cfgs()[k]) ==> lastHidden(cfgs()[k]) == hiddenName(cfgs()[k]))
 //@   loop 1 invariant forall(k, #i, len(cfgs()), len(cfgs()[k].HiddenFiles) == old(len(cfgs()[k].HiddenFiles)))
 
+//@ unit inspect_server_blocks props=C06,C15,C01 verify_pure=on filter=`httpserver\.httpContext\)\.InspectServerBlocks$|httpserver\.Address\)\.Normalize$`
+//@ // Every site that enters the context's list carries its NORMALISED address (lower-cased host, canonical IP text), and
+//@ // its TLS config is filed under that same host name: MakeTLSConfig keys the SNI lookup by TLS.Hostname verbatim, the
+//@ // host screening of automatic HTTPS reads Addr.Host, and the vhost trie is keyed by the address. (A host taken from the
+//@ // -host flag is stored as given.) normHost IS what Normalize computes for the host.
+//@ spec normHost(h string) string
+//@ extern net.ParseIP
+//@   pure
+//@ extern (net.IP).String
+//@   pure
+//@ extern strings.ToLower
+//@   pure
+//@ axiom (h string) net.ParseIP(h) != nil ==> normHost(h) == strings.ToLower(net.ParseIP(h).String())
+//@ axiom (h string) net.ParseIP(h) == nil ==> normHost(h) == strings.ToLower(h)
+//@ func (Address).Normalize
+//@   pure reads G:github.com/tmpim/casket/caskethttp/httpserver.CaseSensitivePath
+//@   ensures [host_normalised] result.Host == normHost(a.Host)
+//@   ensures [port_kept] result.Port == a.Port
+//@ func (*httpContext).saveConfig
+//@   requires [saved_site_host_is_normalised] cfg != nil && (existsT(hh, string, cfg.Addr.Host == normHost(hh)) || cfg.Addr.Host == Host)
+//@   requires [tls_filed_under_site_host] cfg.TLS != nil && cfg.TLS.Hostname == cfg.Addr.Host
+//@   modifies httpContext.siteConfigs, E:*github.com/tmpim/casket/caskethttp/httpserver.SiteConfig, MV:map[string]*github.com/tmpim/casket/caskethttp/httpserver.SiteConfig, MD:map[string]*github.com/tmpim/casket/caskethttp/httpserver.SiteConfig
+//@ extern github.com/tmpim/casket/caskettls.NewConfig
+//@   ensures result1 == nil ==> result0 != nil
+//@ func (*httpContext).InspectServerBlocks
+//@   requires h != nil && h.keysToSiteConfigs != nil
+
 //@ unit trie_match frames=on props=C01 filter=`vhostTrie\)\.Match$`
 //@ func (*vhostTrie).splitHostPath
 //@   pure
